@@ -207,7 +207,7 @@ func runRdCase(raw json.RawMessage, w *TraceWriter) {
 	_ = callerCopy
 	st := r.(rdStater)
 	rmarkPos := 0
-	for _, op := range cs.Ops {
+	for opi, op := range cs.Ops {
 		hint := rmarkPos + r.ReadLen()
 		if op.Op == "release" {
 			func() {
@@ -217,7 +217,7 @@ func runRdCase(raw json.RawMessage, w *TraceWriter) {
 					}
 				}()
 				rmarkPos = hint
-				if op.N%3 == 1 { // the argument ("the error the release depends on") changes nothing
+				if (op.N+opi)%3 == 1 { // the argument ("the error the release depends on") changes nothing
 					r.Release(errReleaseArg)
 				} else {
 					r.Release(nil)
